@@ -21,7 +21,10 @@
 package token
 
 import (
+	"errors"
 	"fmt"
+	"go/ast"
+	"go/parser"
 
 	"github.com/gontainer/gontainer-helpers/v3/exporter"
 	"github.com/gontainer/gontainer/internal/pkg/consts"
@@ -124,6 +127,10 @@ func (f *FactoryFunction) Create(expr string) (Token, error) {
 		goFn = fmt.Sprintf("%s.%s", f.aliaser.Alias(f.goImport), goFn)
 	}
 
+	if err := validateFuncParams(m["params"]); err != nil {
+		return Token{}, fmt.Errorf("invalid arguments of the function %+q: %+q: %w", f.fn, expr, err)
+	}
+
 	callFn := fmt.Sprintf(
 		"callProvider(%s",
 		goFn,
@@ -145,6 +152,24 @@ func (f *FactoryFunction) Create(expr string) (Token, error) {
 		Raw:  expr,
 		Code: fmt.Sprintf(consts.TplTokenProvider, body),
 	}, nil
+}
+
+// validateFuncParams checks whether the given params are a valid list of arguments in GO.
+// Params are copied to the generated code, so they are not validated in the stub mode otherwise.
+func validateFuncParams(params string) error {
+	src := "f(" + params + ")"
+	expr, err := parser.ParseExpr(src)
+	if err != nil {
+		return err
+	}
+	call, ok := expr.(*ast.CallExpr)
+	if ok {
+		_, ok = call.Fun.(*ast.Ident)
+	}
+	if !ok || int(call.End()-call.Pos()) != len(src) {
+		return errors.New("it must be a list of arguments")
+	}
+	return nil
 }
 
 type FactoryUnexpectedFunction struct {
